@@ -14,3 +14,18 @@ Definition f_VarlinkDispatch : bytes := [86; 97; 114; 108; 105; 110; 107; 68; 10
 Definition dispatch_seen (l : list access) : bool := existsb (fun a => bytes_eqb (a_field a) f_VarlinkDispatch) l.
 
 Definition lock_facts_ok (l : list access) : bool := callouts_ok l && dispatch_seen l.
+
+(* the functions that run on a connection's own goroutine (one per connection, all at the same time): whatever they WRITE into the
+   service object they must write under the mutex - an unlocked cache or counter there is shared by all connections *)
+Definition per_connection_fns : list bytes :=
+  [ [72;97;110;100;108;101;77;101;115;115;97;103;101];                                       (* HandleMessage *)
+    [104;97;110;100;108;101;67;111;110;110;101;99;116;105;111;110];                          (* handleConnection *)
+    [103;101;116;73;110;102;111];                                                            (* getInfo *)
+    [103;101;116;73;110;116;101;114;102;97;99;101;68;101;115;99;114;105;112;116;105;111;110]; (* getInterfaceDescription *)
+    [111;114;103;118;97;114;108;105;110;107;115;101;114;118;105;99;101;68;105;115;112;97;116;99;104] ]%N. (* orgvarlinkserviceDispatch *)
+
+Definition handler_write (a : access) : bool :=
+  existsb (bytes_eqb (a_fn a)) per_connection_fns && (match a_kind a with AW => true | _ => false end).
+
+Definition handler_writes_ok (table : list access) : bool :=
+  forallb (fun a => negb (handler_write a) || a_locked a) table.
